@@ -10,7 +10,7 @@ namespace Bva
 
 inductive Op where
   | push (b : Bool) | pop | set (i : Nat) (b : Bool) | resize (n : Nat) (b : Bool) | truncate (n : Nat)
-  | signExtend (n : Nat) | append (x : Vec) | prepend (x : Vec) | insert (i : Nat) (x : Vec) | extend (bs : List Bool)
+  | signExtend (n : Nat) | append (x : Vec) | prepend (x : Vec) | insert (i : Nat) (x : Vec) | extend (bs : List Bool) (hint : Nat)
   | shlIn (b : Bool) | shrIn (b : Bool) | rotl (k : Nat) | rotr (k : Nat)
   | shl (k : Nat) (byRef : Bool) | shr (k : Nat) (byRef : Bool) | not (byRef : Bool)
   | addsub (sub : Bool) (x : Api.Rhs) | mul (x : Api.Rhs) | bitop (op : BitOp) (x : Api.Rhs)
@@ -30,7 +30,7 @@ def Api.step (v : Vec) : Op → Res (Vec × StepOut)
   | .append x => (Api.append v x.any).map (·, none)
   | .prepend x => (Api.prepend v x.any).map (·, none)
   | .insert i x => (Api.insert v i x.any).map (·, none)
-  | .extend bs => (Api.extend v bs).map (·, none)
+  | .extend bs hint => (Api.extend v bs hint).map (·, none)
   | .shlIn b => let p := Api.shlIn v b; .ok (p.1, some p.2)
   | .shrIn b => let p := Api.shrIn v b; .ok (p.1, some p.2)
   | .rotl k => .ok (Api.rotl v k, none)
@@ -64,7 +64,7 @@ def specStep (cap : Option Nat) (a : BV) : Op → Res (BV × StepOut) :=
   | .append x => grow (a.append x.abs)
   | .prepend x => grow (a.prepend x.abs)
   | .insert i x => grow (a.insert i x.abs)
-  | .extend bs => grow (a.extend bs)
+  | .extend bs _ => grow (a.extend bs)
   | .shlIn b => .ok ((a.shlIn b).1, some (a.shlIn b).2)
   | .shrIn b => .ok ((a.shrIn b).1, some (a.shrIn b).2)
   | .rotl k => .ok (a.rotl k, none)
